@@ -345,7 +345,7 @@ def run(prog, chk):
         raise Broken("only %d SQLITE_STATIC binds found" % n_static)
 
     r4 = chk.rule("R4-buffer-primitives", "cif_buf_read clamps to limit - position; cif_buf_write checks position + len for "
-                  "wrap-around before copying", primary=False, floor=2)
+                  "wrap-around before copying, and copies only where the capacity is known to cover position + len", primary=False, floor=3)
     br, bw = prog.fn("cif_buf_read"), prog.fn("cif_buf_write")
     mc = [(b.id, i, n) for (b, i, r, n) in br.calls_to("memcpy")]
     clamp = [(b.id, i) for (b, i, r, n) in br.eval_sites("asg") if path(strip(n.get("lhs"))) == "max" and path(strip(n.get("rhs"))) == "available"]
@@ -364,6 +364,70 @@ def run(prog, chk):
         r4.ok("cif_buf_write", "wrap-around check dominates the copy")
     else:
         r4.violation(bw.file, bw.name, bw.line, "cif_buf_write-overflow", "cif_buf_write copies without the position + len wrap-around check")
+
+    # room for the bytes copied: needed <= capacity holds at the copy - either the growth branch was not needed, or the capacity
+    # stored after growing is a value known to be >= needed (loop exit test, or assigned from it)
+    needed = None
+    for (b, i, r, d) in bw.eval_sites("decl"):
+        for v in d.get("vars", []):
+            if v.get("init") is not None and any(x.get("k") == "member" and x.get("name") == "position" for x in walk(v["init"])) \
+                    and any(x.get("k") == "ref" and x.get("dk") == "parm" for x in walk(v["init"])):
+                needed = v["name"]
+    if needed is None:
+        raise Broken("cif_buf_write: the local holding position + len was not found")
+
+    def no_growth(c):
+        t = strip(c)
+        if isinstance(t, dict) and t.get("k") == "bin" and t.get("op") in (">", "<=", "<", ">="):
+            l, rr = path(strip(t.get("lhs"))) or "", path(strip(t.get("rhs"))) or ""
+            if l == needed and rr.endswith("capacity"):
+                return {">": "false", "<=": "true"}.get(t["op"])
+            if rr == needed and l.endswith("capacity"):
+                return {"<": "false", ">=": "true"}.get(t["op"])
+        return None
+    ng = cfgq.guard_edges(bw, no_growth)
+    cap_stores = [(b, i, a) for (b, i, r, a) in bw.eval_sites("asg") if (path(strip(a.get("lhs"))) or "").endswith("capacity") and a.get("op") == "="]
+    good = set()
+    detail = []
+    for (b, i, a) in cap_stores:
+        P = path(strip(a.get("rhs")))
+        if P == needed:
+            good.add(b.id)
+            continue
+        if not P or not re.match(r"^\w+$", P):
+            continue
+
+        def at_least(c, P=P):
+            t = strip(c)
+            if isinstance(t, dict) and t.get("k") == "bin" and t.get("op") in ("<", ">=", ">", "<="):
+                l, rr = path(strip(t.get("lhs"))), path(strip(t.get("rhs")))
+                if l == P and rr == needed:
+                    return {"<": "false", ">=": "true"}.get(t["op"])
+                if l == needed and rr == P:
+                    return {">": "false", "<=": "true"}.get(t["op"])
+            return None
+        ge = cfgq.guard_edges(bw, at_least)
+        gens, kills = [], []
+        for (b2, i2, r2, a2) in bw.eval_sites("asg"):
+            if path(strip(a2.get("lhs"))) == P:
+                (gens if (a2.get("op") == "=" and path(strip(a2.get("rhs"))) == needed) else kills).append((b2.id, i2))
+        for (b2, i2, r2, d2) in bw.eval_sites("decl"):
+            for v in d2.get("vars", []):
+                if v["name"] == P and v.get("init") is not None:
+                    (gens if path(strip(v["init"])) == needed else kills).append((b2.id, i2))
+        mf = cfgq.MustFact(bw, gen_edges=ge, gen_sites=gens, kill_sites=kills)
+        if mf.at(b.id, i):
+            good.add(b.id)
+            detail.append("%s >= %s at L%s" % (P, needed, a.get("l")))
+    free = cfgq.reach(bw, [bw.entry], good, ng)
+    if mcw and all(b not in free for (b, _, _) in mcw) and (ng or good):
+        r4.ok("cif_buf_write:room", "the copy is reached only where %s <= capacity was tested or after storing a capacity known to be >= %s (%s)"
+              % (needed, needed, "; ".join(detail) or "assigned from it"))
+    else:
+        r4.violation(bw.file, bw.name, mcw[0][2].get("l") if mcw else bw.line, "cif_buf_write-room",
+                     "the copy of `len` bytes at position can be reached after storing a capacity that is not known to be at least "
+                     "`%s` (no loop-exit test or assignment establishes it): a single write larger than one growth step overruns "
+                     "the block" % needed)
 
     r5 = chk.rule("R5-storage-loops-progress", "no loop of the storage / serialisation units is idempotent (call-free and without "
                   "loop-carried state): the buffer-growth and copy loops advance for every size", primary=False, floor=30)
